@@ -24,6 +24,15 @@ struct R_ : state_machine_def<R_> {
   template<class Fsm,class Ev> void no_transition(Ev const&,Fsm&,int){ ++g_nt; }
 };
 typedef BE<R_> R;
+// action deferral: a Defer action row (no deferred_events list) retains E while Busy; after `G` the occurrences must come back in arrival order
+struct A_ : state_machine_def<A_> {
+  typedef int activate_deferred_events;
+  struct Busy : state<> {}; struct Idle : state<> {};
+  typedef Busy initial_state;
+  struct transition_table : mpl::vector< Row<Busy,E,none,Defer,none>, Row<Busy,G,Idle,none,none>, Row<Idle,E,none,LogE,none> > {};
+  template<class Fsm,class Ev> void no_transition(Ev const&,Fsm&,int){ ++g_nt; }
+};
+typedef BE<A_> A;
 static std::string vs(const std::vector<int>& v){ std::string s; for (int x : v) s += std::to_string(x) + " "; return s; }
 int main(int argc, char** argv) {
   if (argc > 1) g_only = argv[1];
@@ -47,5 +56,13 @@ int main(int argc, char** argv) {
     m.process_event(N());                                    // unrelated: must not re-deliver
     report("regions.deferred-for-all", held && still && g_seen.size() == 1 && g_seen[0] == 5, "C05", "seen=[" + vs(g_seen) + "] nt=" + std::to_string(g_nt)); }
 #endif
+  for (int n = 1; n <= 3; ++n) {
+    A m; m.start(); g_seen.clear(); g_nt = 0;
+    for (int i = 1; i <= n; ++i) m.process_event(E(i));
+    bool held = g_seen.empty() && g_nt == 0;
+    m.process_event(G());
+    bool ok = held && g_nt == 0 && (int)g_seen.size() == n; for (int i = 0; ok && i < n; ++i) ok = g_seen[i] == i + 1;
+    report("action-defer.order.n" + std::to_string(n), ok, "C05,C13", "seen=[" + vs(g_seen) + "] nt=" + std::to_string(g_nt));
+  }
   return finish();
 }
